@@ -410,7 +410,11 @@ func runC09(r *engine.Run) {
 		dec  func(uplink bool, in []byte) (int, error)
 	}
 	apps := []appDec{
-		{"clocksync", func(u bool, in []byte) (int, error) { var c clocksync.Commands; err := c.UnmarshalBinary(u, in); return len(c), err }},
+		{"clocksync", func(u bool, in []byte) (int, error) {
+			var c clocksync.Commands
+			err := c.UnmarshalBinary(u, in)
+			return len(c), err
+		}},
 		{"multicastsetup", func(u bool, in []byte) (int, error) {
 			var c multicastsetup.Commands
 			err := c.UnmarshalBinary(u, in)
